@@ -83,9 +83,13 @@ PatchCases ==
 GenericCases == \A g \in 1..Len(GenericPrograms) :
    Emit([id |-> "generic/" \o ToString(g), kind |-> "generic", exp |-> FALSE, text |-> GenericPrograms[g]])
 
+OptionCases == \A f \in 1..Len(InputForms), o \in 1..Len(OptionSets), g \in 1..Len(OptionPrograms) :
+   Emit([id |-> "opt/" \o InputForms[f] \o "/" \o OptionSets[o] \o "/" \o ToString(g), kind |-> "evalopt", exp |-> FALSE, text |-> OptionPrograms[g],
+         res |-> InputForms[f], name |-> OptionSets[o]])
+
 NF == Len(Funcs)
 NOps == Len(BinOps)
-Parts == 1..(NF + NOps + 5)
+Parts == 1..(NF + NOps + 6)
 
 EmitPart(p) ==
   IF p <= NF THEN FnCases(Funcs[p])
@@ -94,6 +98,7 @@ EmitPart(p) ==
   ELSE IF p = NF + NOps + 2 THEN SrcCases(" ", "sp")
   ELSE IF p = NF + NOps + 3 THEN SrcCases("", "glued")
   ELSE IF p = NF + NOps + 4 THEN PatchCases
+  ELSE IF p = NF + NOps + 5 THEN OptionCases
   ELSE GenericCases
 
 Init == part \in Parts /\ st = "idle" /\ api = "-" /\ last = "none"
